@@ -17,7 +17,7 @@ import (
 	"golang.org/x/tools/go/ssa"
 )
 
-const replayElems = 24
+const replayElems = 96
 
 // valueSpec describes how to read a Go value out of a model and print it as Go source.
 type valueSpec struct {
@@ -68,12 +68,26 @@ func exportedEnough(t types.Type, pkg *types.Package) bool {
 }
 
 // specFor builds a valueSpec for a value v of Go type t living in state st.
-func (vc *VC) specFor(v Term, t types.Type, st *State, depth int) (*valueSpec, bool) {
-	if depth > 6 {
+func (vc *VC) specFor(v Term, t types.Type, st *State, depth int) (sp *valueSpec, ok bool) {
+	if os.Getenv("GOCV_REPLAYDEBUG") != "" {
+		defer func() {
+			if !ok {
+				fmt.Fprintf(os.Stderr, "specFor: cannot build %s (depth %d)\n", t, depth)
+			}
+		}()
+	}
+	if depth > 8 {
 		return nil, false
 	}
 	if _, ok := vc.tt.isOpaque(t); ok {
 		return nil, false
+	}
+	if isAbstractTP(t) {
+		// a value of an abstract type parameter: the model says nothing about its structure; the
+		// replay uses the zero value of whatever the parameter is instantiated with
+		return &valueSpec{build: func(vals []*SExp, q *qualifier) (string, bool) {
+			return fmt.Sprintf("*new(%s)", q.typeString(t)), true
+		}}, true
 	}
 	switch u := U(t).(type) {
 	case *types.Basic:
@@ -86,7 +100,13 @@ func (vc *VC) specFor(v Term, t types.Type, st *State, depth int) (*valueSpec, b
 			}}, true
 		}
 		if w, signed, ok := intInfo(u); ok {
-			return &valueSpec{terms: []Term{v}, build: func(vals []*SExp, q *qualifier) (string, bool) {
+			// cells the function never reads are unconstrained in the VC: the rendered value must
+			// still be a value of its type
+			var small []Term
+			if vc.mode == ModeInt {
+				small = []Term{vc.rangeAssumption(v, t, IntLit(0))}
+			}
+			return &valueSpec{terms: []Term{v}, small: small, build: func(vals []*SExp, q *qualifier) (string, bool) {
 				n, ok := sexpInt(vals[0])
 				if !ok {
 					return "", false
@@ -170,7 +190,7 @@ func (vc *VC) specFor(v Term, t types.Type, st *State, depth int) (*valueSpec, b
 		if _, ok := U(el).(*types.Struct); !ok {
 			_, isBasic := U(el).(*types.Basic)
 			_, isArr := U(el).(*types.Array)
-			if !isBasic && !isArr {
+			if !isBasic && !isArr && !isAbstractTP(el) {
 				return nil, false
 			}
 		}
@@ -310,6 +330,14 @@ func Replay(ctx *Ctx, fres *FuncResult, o *Obligation, secs int) ReplayOutcome {
 	// expected results (ensures only): scalar results
 	var rspecs []*valueSpec
 	var rIdx []int
+	execCond := ""
+	var gs *goSpec
+	if o.Kind == "ensures" && o.Spec != nil {
+		gs = newGoSpec(ctx, fn, fres.Contract)
+		if c, err := gs.tr(o.Spec, false); err == nil {
+			execCond = c
+		}
+	}
 	if o.Kind == "ensures" && vc.exitState != nil {
 		for i, r := range vc.resultTerms {
 			rt := fn.Signature.Results().At(i).Type()
@@ -321,8 +349,8 @@ func Replay(ctx *Ctx, fres *FuncResult, o *Obligation, secs int) ReplayOutcome {
 				}
 			}
 		}
-		if len(rspecs) == 0 {
-			return ReplayOutcome{Status: "not-replayable", Detail: "no comparable result value"}
+		if len(rspecs) == 0 && execCond == "" {
+			return ReplayOutcome{Status: "not-replayable", Detail: "no comparable result value and the clause is not executable"}
 		}
 	}
 	var watch []WatchTerm
@@ -348,11 +376,16 @@ func Replay(ctx *Ctx, fres *FuncResult, o *Obligation, secs int) ReplayOutcome {
 	vc.inputs = saved
 	tag := "replay" + fmt.Sprint(hashString(o.Name))
 	r := runSolver(context.Background(), solvers[0], q, secs, tag)
-	if r.Status != "sat" {
+	if r.Status != "sat" && r.Status != "unsat" {
+		if rs, ok := solveSplit(q, secs, tag); ok {
+			r = rs
+		}
+	}
+	if r.Status != "sat" && r.Status != "unsat" {
 		r = runSolver(context.Background(), solvers[2], q, secs, tag)
 	}
 	if r.Status != "sat" {
-		return ReplayOutcome{Status: "not-replayable", Detail: "no counterexample within the small scope (slices of at most 24 elements): " + r.Status}
+		return ReplayOutcome{Status: "not-replayable", Detail: "no counterexample within the small scope (slices of at most 96 elements): " + r.Status}
 	}
 	vals := parseModelValues(r.Model)
 	if o.Taint.Valid() && o.Taint.S != "false" && len(vals) > 0 {
@@ -360,6 +393,10 @@ func Replay(ctx *Ctx, fres *FuncResult, o *Obligation, secs int) ReplayOutcome {
 		vals = vals[1:]
 	}
 	if len(vals) != len(watch) {
+		if d := os.Getenv("GOCV_REPLAYDEBUG"); d != "" {
+			os.WriteFile(filepath.Join(d, tag+".smt2"), []byte(q), 0o644)
+			os.WriteFile(filepath.Join(d, tag+".out"), []byte(r.Raw), 0o644)
+		}
 		return ReplayOutcome{Status: "error", Detail: fmt.Sprintf("model has %d values for %d terms", len(vals), len(watch))}
 	}
 	ql := &qualifier{pkg: pkg, imports: map[string]string{}}
@@ -377,30 +414,166 @@ func Replay(ctx *Ctx, fres *FuncResult, o *Obligation, secs int) ReplayOutcome {
 	for _, sp := range rspecs {
 		e, ok := sp.build(vals[pos:pos+len(sp.terms)], ql)
 		if !ok {
+			if execCond != "" {
+				rspecs, expExprs = nil, nil
+				break
+			}
 			return ReplayOutcome{Status: "not-replayable", Detail: "expected result cannot be rendered as Go"}
 		}
 		pos += len(sp.terms)
 		expExprs = append(expExprs, e)
 	}
-	src := buildReplayTest(fn, pkg, ql, argExprs, rIdx, expExprs, o, tps)
-	out, err := runReplayTest(ctx, fn, src)
-	ro := ReplayOutcome{Attempted: true, TestSrc: src, Output: out}
-	switch {
-	case err != nil && !strings.Contains(out, "GOCV-REPLAY"):
-		ro.Status = "error"
-		ro.Detail = err.Error()
-	case strings.Contains(out, "GOCV-REPLAY: confirmed"):
-		ro.Status = "confirmed"
-		ro.Confirmed = true
-	default:
-		ro.Status = "mismatch"
+	finish := func(src string) ReplayOutcome {
+		out, err := runReplayTest(ctx, fn, src)
+		ro := ReplayOutcome{Attempted: true, TestSrc: src, Output: out}
+		switch {
+		case err != nil && !strings.Contains(out, "GOCV-REPLAY"):
+			ro.Status = "error"
+			ro.Detail = err.Error()
+		case strings.Contains(out, "GOCV-REPLAY: confirmed"):
+			ro.Status = "confirmed"
+			ro.Confirmed = true
+		default:
+			ro.Status = "mismatch"
+		}
+		for _, l := range strings.Split(out, "\n") {
+			if strings.Contains(l, "GOCV-REPLAY") {
+				ro.Detail = strings.TrimSpace(l)
+			}
+		}
+		return ro
 	}
-	for _, l := range strings.Split(out, "\n") {
-		if strings.Contains(l, "GOCV-REPLAY") {
-			ro.Detail = strings.TrimSpace(l)
+	if execCond != "" {
+		// first choice: run the real code on the counterexample's inputs and evaluate the violated
+		// clause itself on what it returns
+		ql2 := &qualifier{pkg: pkg, imports: map[string]string{}}
+		for k, v := range ql.imports {
+			ql2.imports[k] = v
+		}
+		ro := finish(buildExecReplayTest(fn, pkg, ql2, argExprs, execCond, gs.needIte, o, tps))
+		if ro.Status != "error" || len(rspecs) == 0 {
+			return ro
 		}
 	}
-	return ro
+	if len(rspecs) == 0 {
+		return ReplayOutcome{Status: "not-replayable", Detail: "no comparable result value"}
+	}
+	return finish(buildReplayTest(fn, pkg, ql, argExprs, rIdx, expExprs, o, tps))
+}
+
+func newGoSpec(ctx *Ctx, fn *ssa.Function, c *FuncContract) *goSpec {
+	gs := &goSpec{pol: 1, ctx: ctx, pkgPath: c.PkgPath, params: map[string]int{}, results: map[string]int{}, bound: map[string]string{}}
+	var recvT types.Type
+	if fn.Signature.Recv() != nil {
+		recvT = fn.Signature.Recv().Type()
+	}
+	names, _ := sigNames(fn.Signature, recvT)
+	for i, n := range names {
+		gs.params[n] = i
+	}
+	res := fn.Signature.Results()
+	for i := 0; i < res.Len(); i++ {
+		gs.results[fmt.Sprintf("result%d", i)] = i
+		if res.Len() == 1 {
+			gs.results["result"] = i
+		}
+		if n := res.At(i).Name(); n != "" && n != "_" {
+			if _, clash := gs.params[n]; !clash {
+				gs.results[n] = i
+			}
+		}
+	}
+	return gs
+}
+
+// buildExecReplayTest: arguments a<i>, an untouched second copy o<i> for old(), the real call,
+// then the violated clause evaluated on the real results.
+func buildExecReplayTest(fn *ssa.Function, pkg *types.Package, ql *qualifier, args []string, cond string, needIte bool, o *Obligation, tps []*types.TypeParam) string {
+	var body strings.Builder
+	for i := range args {
+		fmt.Fprintf(&body, "\ta%d := %s\n\to%d := %s\n\t_, _ = a%d, o%d\n", i, args[i], i, args[i], i, i)
+	}
+	recvOff := 0
+	call := ""
+	if fn.Signature.Recv() != nil {
+		recvOff = 1
+		call = fmt.Sprintf("(a0).%s(", fn.Name())
+	} else {
+		call = fn.Name()
+		if l := fn.Signature.TypeParams(); l != nil {
+			var ns []string
+			for i := 0; i < l.Len(); i++ {
+				ns = append(ns, l.At(i).Obj().Name())
+			}
+			call += "[" + strings.Join(ns, ", ") + "]"
+		}
+		call += "("
+	}
+	var cargs []string
+	for i := recvOff; i < len(args); i++ {
+		a := fmt.Sprintf("a%d", i)
+		if fn.Signature.Variadic() && i == len(args)-1 {
+			a += "..."
+		}
+		cargs = append(cargs, a)
+	}
+	call += strings.Join(cargs, ", ") + ")"
+	nres := fn.Signature.Results().Len()
+	body.WriteString("\tphase := \"call\"\n")
+	body.WriteString("\tdefer func() {\n\t\tif r := recover(); r != nil {\n\t\t\tfmt.Printf(\"GOCV-REPLAY: mismatch (panic during %s: %v)\\n\", phase, r)\n\t\t}\n\t}()\n")
+	if nres > 0 {
+		var lhs []string
+		for i := 0; i < nres; i++ {
+			lhs = append(lhs, fmt.Sprintf("r%d", i))
+		}
+		fmt.Fprintf(&body, "\t%s := %s\n", strings.Join(lhs, ", "), call)
+		for i := 0; i < nres; i++ {
+			fmt.Fprintf(&body, "\t_ = r%d\n", i)
+		}
+	} else {
+		fmt.Fprintf(&body, "\t%s\n", call)
+	}
+	body.WriteString("\tphase = \"evaluation of the clause\"\n")
+	fmt.Fprintf(&body, "\tholds := %s\n", cond)
+	fmt.Fprintf(&body, "\tif !holds {\n\t\tfmt.Printf(\"GOCV-REPLAY: confirmed: on the counterexample's inputs the real code returns values that violate: %%s\\n\", %q)\n\t} else {\n\t\tfmt.Println(\"GOCV-REPLAY: mismatch (the clause holds on the real results for these inputs)\")\n\t}\n", o.Descr)
+	ql.imports["fmt"] = "fmt"
+	ql.imports["testing"] = "testing"
+	src := body.String()
+	if strings.Contains(src, "strings.Repeat") {
+		ql.imports["strings"] = "strings"
+	}
+	helper := ""
+	if needIte {
+		helper = "func gocvIte[T any](c bool, a, b T) T {\n\tif c {\n\t\treturn a\n\t}\n\treturn b\n}\n\n"
+	}
+	var tpl []string
+	decls, inst := "", ""
+	if len(tps) > 0 {
+		for _, tp := range tps {
+			tpl = append(tpl, tp.Obj().Name()+" "+ql.typeString(tp.Constraint()))
+		}
+		decls, inst = replayInstantiation(tps, ql)
+	}
+	var imps []string
+	for p := range ql.imports {
+		imps = append(imps, p)
+	}
+	sort.Strings(imps)
+	var sb strings.Builder
+	fmt.Fprintf(&sb, "package %s\n\nimport (\n", pkg.Name())
+	for _, p := range imps {
+		fmt.Fprintf(&sb, "\t%s %q\n", ql.imports[p], p)
+	}
+	sb.WriteString(")\n\n")
+	sb.WriteString(helper)
+	if len(tps) > 0 {
+		sb.WriteString(decls)
+		fmt.Fprintf(&sb, "\n// generated by gocv: replay of a counterexample for\n//   %s\nfunc verifReplayGeneric[%s](t *testing.T) {\n%s}\n\nfunc TestVerifReplay(t *testing.T) { verifReplayGeneric[%s](t) }\n",
+			o.Name, strings.Join(tpl, ", "), src, inst)
+		return sb.String()
+	}
+	fmt.Fprintf(&sb, "// generated by gocv: replay of a counterexample for\n//   %s\nfunc TestVerifReplay(t *testing.T) {\n%s}\n", o.Name, src)
+	return sb.String()
 }
 
 // replayTypeParams lists the type parameters of fn (receiver's first). ok=false when one of them
@@ -418,12 +591,9 @@ func replayTypeParams(fn *ssa.Function) ([]*types.TypeParam, bool) {
 	saved := useCoreTypes
 	useCoreTypes = true
 	defer func() { useCoreTypes = saved }()
-	for _, tp := range tps {
-		it, _ := tp.Constraint().Underlying().(*types.Interface)
-		if coreOf(tp) == nil && it != nil && it.NumMethods() > 0 {
-			return nil, false
-		}
-	}
+	// every type parameter gets a concrete [4]uint64-like type with stub methods (see
+	// replayInstantiation); constraints that such a type cannot satisfy make the test fail to
+	// compile, which is reported as a replay error, not as a result
 	return tps, true
 }
 
